@@ -591,6 +591,154 @@ Proof.
   - apply (Rmult_le_reg_r S); [exact Hn|]. unfold Rdiv. rewrite Rmult_assoc, Rinv_l by lra. lra.
 Qed.
 
+(** ** the modelled covariance includes the regularisation: x^T cov x >= reg |x|^2 *)
+Lemma Rsum_map_mult_l {A} (f : A -> R) c l : Rsum (map (fun k => c * f k) l) = c * Rsum (map f l).
+Proof. induction l as [|x l IH]; simpl; [lra|]. rewrite IH. ring. Qed.
+
+Lemma Rsum_map_ext {A} (f g : A -> R) l : (forall a, In a l -> f a = g a) -> Rsum (map f l) = Rsum (map g l).
+Proof. intros H. f_equal. apply map_ext_in. exact H. Qed.
+
+Lemma Rsum_cons a l : Rsum (a :: l) = a + Rsum l.
+Proof. reflexivity. Qed.
+
+Lemma Rdot_map_seq (f : nat -> R) : forall d s y, length y = d ->
+  Rdot (map f (seq s d)) y = Rsum (map (fun b => f (s + b)%nat * nth b y 0) (seq 0 d)).
+Proof.
+  induction d as [|d IH]; intros s y L.
+  - destruct y; [reflexivity | discriminate].
+  - destruct y as [|y0 y]; [discriminate|]. injection L as L.
+    cbn [seq map Rdot nth]. rewrite (IH (S s) y L), <- seq_shift, map_map, Rsum_cons.
+    rewrite Nat.add_0_r. f_equal. apply Rsum_map_ext. intros b _. cbn [nth].
+    replace (s + S b)%nat with (S s + b)%nat by lia. reflexivity.
+Qed.
+
+Lemma Rdot_nth_sum : forall y r : list R,
+  Rdot y r = Rsum (map (fun a => nth a y 0 * nth a r 0) (seq 0 (length y))).
+Proof.
+  induction y as [|y0 y IH]; intros r; [reflexivity|].
+  cbn [length seq map nth]. rewrite <- seq_shift, map_map, Rsum_cons.
+  destruct r as [|r0 r]; cbn [Rdot nth].
+  - rewrite (Rsum_map_ext _ (fun _ => 0)).
+    + rewrite (Rsum_const _ _ 0) by reflexivity. lra.
+    + intros a _. destruct a; lra.
+  - rewrite (IH r). reflexivity.
+Qed.
+
+Lemma sum_kron (g : nat -> R) c : forall d a,
+  Rsum (map (fun b => (if Nat.eqb a b then c else 0) * g b) (seq 0 d)) = if Nat.ltb a d then c * g a else 0.
+Proof.
+  induction d as [|d IH]; intros a; [reflexivity|].
+  rewrite seq_S, map_app, Rsum_app, IH. cbn [Nat.add map]. rewrite Rsum_cons. change (Rsum []) with 0.
+  destruct (Nat.eqb a d) eqn:E.
+  - apply Nat.eqb_eq in E. subst a. rewrite Nat.ltb_irrefl.
+    replace (Nat.ltb d (S d)) with true by (symmetry; apply Nat.ltb_lt; lia). lra.
+  - apply Nat.eqb_neq in E. destruct (Nat.ltb a d) eqn:L.
+    + apply Nat.ltb_lt in L. replace (Nat.ltb a (S d)) with true by (symmetry; apply Nat.ltb_lt; lia). lra.
+    + apply Nat.ltb_ge in L. replace (Nat.ltb a (S d)) with false by (symmetry; apply Nat.ltb_ge; lia). lra.
+Qed.
+
+(* T(a,b) = sum_i diff_ia r_i diff_ib, as the model computes it *)
+Definition Tf (diff : list (list R)) (rk : list R) (a b : nat) : R :=
+  dotv R_ops (vmul R_ops (col R_ops a diff) rk) (col R_ops b diff).
+
+Lemma Tf_nil_l rk a b : Tf [] rk a b = 0.
+Proof. unfold Tf, dotv. rewrite seq_sum_R. reflexivity. Qed.
+Lemma Tf_nil_r diff a b : Tf diff [] a b = 0.
+Proof. unfold Tf, dotv, vmul. rewrite seq_sum_R. rewrite combine_nil. reflexivity. Qed.
+Lemma Tf_cons dl diff r rk a b :
+  Tf (dl :: diff) (r :: rk) a b = nth a dl 0 * r * nth b dl 0 + Tf diff rk a b.
+Proof. unfold Tf, dotv, vmul, col. rewrite !seq_sum_R. cbn [map combine Rsum fst snd mul zero R_ops]. reflexivity. Qed.
+
+Definition Qf (y : list R) (diff : list (list R)) (rk : list R) : R :=
+  let d := length y in
+  Rsum (map (fun a => Rsum (map (fun b => nth a y 0 * nth b y 0 * Tf diff rk a b) (seq 0 d))) (seq 0 d)).
+
+Lemma Qf_zero y diff rk : (diff = [] \/ rk = []) -> Qf y diff rk = 0.
+Proof.
+  intros H. unfold Qf. rewrite (Rsum_map_ext _ (fun _ => 0)).
+  - rewrite (Rsum_const _ _ 0) by reflexivity. lra.
+  - intros a _. rewrite (Rsum_map_ext _ (fun _ => 0)).
+    + rewrite (Rsum_const _ _ 0) by reflexivity. lra.
+    + intros b _. destruct H as [-> | ->]; [rewrite Tf_nil_l | rewrite Tf_nil_r]; lra.
+Qed.
+
+Lemma Qf_cons y dl diff r rk :
+  Qf y (dl :: diff) (r :: rk) = r * (Rdot y dl) ^ 2 + Qf y diff rk.
+Proof.
+  unfold Qf. cbv zeta. set (d := length y).
+  rewrite (Rsum_map_ext _ (fun a => r * (nth a y 0 * nth a dl 0) * Rsum (map (fun b => nth b y 0 * nth b dl 0) (seq 0 d))
+                                   + Rsum (map (fun b => nth a y 0 * nth b y 0 * Tf diff rk a b) (seq 0 d)))).
+  - rewrite Rsum_map_plus. f_equal.
+    rewrite (Rsum_map_ext _ (fun a => (r * Rsum (map (fun b => nth b y 0 * nth b dl 0) (seq 0 d))) * (nth a y 0 * nth a dl 0)))
+      by (intros; ring).
+    rewrite Rsum_map_mult_l, Rdot_nth_sum. fold d. ring.
+  - intros a _. rewrite <- Rsum_map_mult_l, <- Rsum_map_plus. apply Rsum_map_ext. intros b _.
+    rewrite Tf_cons. ring.
+Qed.
+
+Lemma Qf_nonneg y : forall diff rk, Forall (fun v => 0 <= v) rk -> 0 <= Qf y diff rk.
+Proof.
+  induction diff as [|dl diff IH]; intros rk Hr.
+  - rewrite Qf_zero by (left; reflexivity). lra.
+  - destruct rk as [|r rk]; [rewrite Qf_zero by (right; reflexivity); lra|].
+    inversion Hr; subst. rewrite Qf_cons. specialize (IH rk H2).
+    pose proof (pow2_ge_0 (Rdot y dl)). nra.
+Qed.
+
+Lemma Rquad_cov_of (X : list (list R)) rk mu nkk reg y : length y = length mu ->
+  Rquad (cov_of R_ops X rk mu nkk reg) y
+  = Qf y (map (fun x => vsub R_ops x mu) X) rk / nkk + reg * Rdot y y.
+Proof.
+  intros Ly. unfold Rquad, cov_of. set (diff := map (fun x => vsub R_ops x mu) X).
+  rewrite <- Ly. set (d := length y). rewrite map_map.
+  rewrite Rdot_comm, (Rdot_map_seq _ d 0 y eq_refl). cbn [Nat.add].
+  rewrite (Rsum_map_ext _ (fun a => Rsum (map (fun b => nth a y 0 * nth b y 0 * Tf diff rk a b) (seq 0 d)) / nkk
+                                   + reg * (nth a y 0 * nth a y 0))).
+  - rewrite Rsum_map_plus, Rsum_map_scale, Rsum_map_mult_l. unfold Qf. fold d.
+    rewrite (Rdot_nth_sum y y). fold d. reflexivity.
+  - intros a Ha. apply in_seq in Ha.
+    rewrite (Rdot_map_seq _ d 0 y eq_refl). cbn [Nat.add].
+    rewrite (Rsum_map_ext _ (fun b => (Tf diff rk a b / nkk) * nth b y 0 + (if Nat.eqb a b then reg else 0) * nth b y 0)).
+    + rewrite Rsum_map_plus, (sum_kron (fun b => nth b y 0) reg d a).
+      replace (Nat.ltb a d) with true by (symmetry; apply Nat.ltb_lt; lia).
+      rewrite Rmult_plus_distr_r. f_equal; [|ring].
+      rewrite <- Rsum_map_scale. rewrite Rmult_comm, <- Rsum_map_mult_l.
+      apply Rsum_map_ext. intros b _. unfold Rdiv. ring.
+    + intros b _. fold (Tf diff rk a b). cbn [div add R_ops]. destruct (Nat.eqb a b); ring.
+Qed.
+
+Lemma model_cov_includes_reg_lemma (X : list (list R)) rk mu nkk reg y :
+  length y = length mu -> 0 < nkk -> Forall (fun v => 0 <= v) rk ->
+  reg * Rdot y y <= Rquad (cov_of R_ops X rk mu nkk reg) y.
+Proof.
+  intros Ly Hn Hr. rewrite (Rquad_cov_of X rk mu nkk reg y Ly).
+  pose proof (Qf_nonneg y (map (fun x => vsub R_ops x mu) X) rk Hr) as HQ.
+  assert (0 <= Qf y (map (fun x => vsub R_ops x mu) X) rk / nkk).
+  { apply Rmult_le_pos; [exact HQ | apply Rlt_le, Rinv_0_lt_compat, Hn]. }
+  lra.
+Qed.
+
+Lemma Rdot_self_nonneg y : 0 <= Rdot y y.
+Proof. induction y as [|a y IH]; simpl; [lra|]. nra. Qed.
+
+Lemma Rdot_self_pos y : ~ Forall (fun v => v = 0) y -> 0 < Rdot y y.
+Proof.
+  induction y as [|a y IH]; intros H; [exfalso; apply H; constructor|].
+  simpl. pose proof (Rdot_self_nonneg y).
+  destruct (Req_dec a 0) as [E|E].
+  - subst a. assert (~ Forall (fun v => v = 0) y) by (intro F; apply H; constructor; auto).
+    specialize (IH H1). lra.
+  - assert (0 < a * a) by nra. lra.
+Qed.
+
+Lemma model_cov_pd_lemma (X : list (list R)) rk mu nkk reg y :
+  length y = length mu -> 0 < nkk -> Forall (fun v => 0 <= v) rk -> 0 < reg ->
+  ~ Forall (fun v => v = 0) y -> 0 < Rquad (cov_of R_ops X rk mu nkk reg) y.
+Proof.
+  intros Ly Hn Hr Hreg Hy. pose proof (model_cov_includes_reg_lemma X rk mu nkk reg y Ly Hn Hr).
+  pose proof (Rdot_self_pos y Hy). nra.
+Qed.
+
 (* ------------------------------------------------------------------------------------------ *)
 (** * Non-vacuity *)
 
